@@ -159,7 +159,7 @@ void run_case(Choices& c, Report& r)
       case 3: s.kind = 3; s.count = 2 + c.pick(14); total += s.count; break; // churn: short-lived threads logging for the first time
       case 0:
         s.kind = 0;
-        s.count = 1u << (4 + c.pick(13)); // 16 .. 65536
+        s.count = 1u << (4 + c.pick(kDropping ? 13 : 9)); // 16 .. 65536 (dropping: cheap) / 16 .. 4096 (blocking: every statement is written)
         s.size_class = kDropping ? (c.pick(2) ? 3 : c.pick(4)) : c.pick(4);
         total += s.count;
         break;
